@@ -1,11 +1,18 @@
 (* C07 -- Outputs stay re-preservable: tags fully expanded, USER tags paired and unique.
-   FOR ALL MODELS, for the shipped template files that lie in the block grammar of C16 after the first filtering
-   (Test.TEMPLATEStateMachine.cpp, TEMPLATEReceiver.h, TEMPLATETransmitter.h; decided by computation: shipped16): the generated
-   file is the reference expansion and NO generator tag is left in it (C07_tags_consumed_shipped, end of this file).  The
-   USER-tag half (pairs adjacent, names unique = wf_fresh_file) is NOT proved for all models: it needs CleanUpLine on lines
-   with symbolic names (kof distributes over literal / name pieces; "{{" cannot arise) and the NoDup combinatorics of the
-   instantiated names under a names_ok predicate; see the report.  The other shipped files use signature / member / table /
-   nested-transition tags that Model/EngineSM.v does not model.
+   FOR ALL MODELS (end of this file):
+   * C07_wf_out_Test_TEMPLATEStateMachine_cpp: for the shipped file Test.TEMPLATEStateMachine.cpp, EVERY state-machine model
+     whose element names satisfy the syntactic names_ok (non-empty, letters and digits only, not a '_'-piece of a fixed USER
+     tag name of the file, pairwise distinct per list, signature events reading as themselves) and EVERY assignment of user
+     tags: what smgen.Generate writes is createoutput of lines that carry no generator tag and are a well-formed fresh file
+     (Preserve.wf_fresh_file: USER tag lines in adjacent pairs, cleaned names equal, unique, stable under the TAB filter,
+     chunk shapes, no CR) -- both halves of the property, no per-output boolean.  C07_fixed_point_shipped instantiates C01.
+   * C07_fresh_of_template: the same for ANY template of the block grammar with the computed conditions in_grammar07, given
+     distinct cleaned tag names (keys07), C07_names_wf16: admissible names discharge the per-instance conditions of C16.
+   * C07_tags_consumed_shipped: the generator-tag half for the three shipped files inside the block grammar
+     (TEMPLATEReceiver.h and TEMPLATETransmitter.h carry no USER tag; their lines contain '{' next to name tags, which the
+     simple "no brace on a line with a name tag" criterion of in_grammar07 does not admit: wf_fresh_file is not proved for them).
+   Fixed first-filter dictionary dict0 (project name X, namespace NS): not generalised to all project names.
+   The other shipped files use signature / member / table / nested-transition tags that Model/EngineSM.v does not model.
    PARTIAL (the rest): the statement "for EVERY valid model the shipped generators' output is represervable" would need the complete
    template engine as a Coq function (name/case/counter tags are modelled in Model/EngineSM.v; signature, member, documentation
    and UML tags are not).  What is proved: (1) finite, source-derived obligations over every shipped template, re-checked against
@@ -16,7 +23,7 @@ From Coq Require Import String Ascii List Bool.
 From KV Require Import Lib.Str Lib.ODict Model.PreserveCore Model.Preserve Model.TagShape
                        Gen.Tags Gen.Templates Gen.Vocab Proofs.PreserveStr Proofs.TagShapeProofs
                        Model.Engine Model.EngineSM Model.EngineDomain Model.EngineDomain16 Model.Parse16 Spec.RefExpand Spec.RefExpand16
-                       Proofs.Shipped16.
+                       Model.EngineDomain07 Proofs.Shipped16 Proofs.Shipped07 Proofs.Shipped07Cpp Proofs.PreserveTop.
 Import ListNotations.
 Open Scope string_scope.
 
@@ -85,7 +92,7 @@ Theorem C07_tags_consumed_shipped : forall lines l0 t m (a : usertags),
   wf_elements16 t (elements_of_model m) = true ->
   generate_file m dict0 a lines = Some (ref16 (elements_of_model m) t)
   /\ forallb no_generator_tag (flat_map (ref_item16 (elements_of_model m)) t) = true.
-Proof. intros lines l0 t m a Hs Hw. exact (shipped_output lines l0 t Hs m a Hw). Qed.
+Proof. exact shipped_output_flat. Qed.
 Print Assumptions C07_tags_consumed_shipped.
 
 Definition cd_rows : list EngineSM.row :=
@@ -107,3 +114,49 @@ Example C07_tags_consumed_shipped_nonvacuous :
   /\ admitted (file_of "TEMPLATETransmitter.h" tmpl_proto) [] [] ["MessageHeader"] ["MsgPing"; "MsgPong"] = true.
 Proof. split; [|split]; vm_compute; reflexivity. Qed.
 Print Assumptions C07_tags_consumed_shipped_nonvacuous.
+
+(* ---------------------------------------------------------------- both halves, for all models *)
+(* any template of the block grammar that meets the computed conditions in_grammar07 (tag lines in identical adjacent pairs,
+   literal pieces of lines with name tags free of brace / TAB / CR / LF / backslash as required, ...): for every element
+   lists with admissible names and pairwise distinct cleaned tag names, the expanded lines are a well-formed fresh file *)
+Theorem C07_fresh_of_template : forall e t,
+  names_fine e -> in_grammar07 t = true -> forallb item16_ok t = true -> NoDup (keys07 e t) ->
+  wf_fresh_file (flat_map (ref_item16 e) t) = true.
+Proof. exact fresh_of_template. Qed.
+Print Assumptions C07_fresh_of_template.
+
+(* admissible names make the per-(template, table) conditions of C16 (wf_elements16) true *)
+Theorem C07_names_wf16 : forall e t,
+  names_fine e -> forallb item16_ok t = true -> inky t = true -> wf_elements16 t e = true.
+Proof. exact names_wf16. Qed.
+Print Assumptions C07_names_wf16.
+
+(* the cleaned USER tag names of Test.TEMPLATEStateMachine.cpp are pairwise distinct for all admissible element lists *)
+Theorem C07_keys_unique_Test_TEMPLATEStateMachine_cpp : forall e, names_ok t_cpp e = true -> NoDup (keys07 e t_cpp).
+Proof. exact nodup_keys_cpp. Qed.
+Print Assumptions C07_keys_unique_Test_TEMPLATEStateMachine_cpp.
+
+Theorem C07_wf_out_Test_TEMPLATEStateMachine_cpp : forall m (a : usertags),
+  names_ok t_cpp (elements_of_model m) = true ->
+  generate_file m dict0 a lines_cpp = Some (concat_lines (map tab4 (fresh_cpp (elements_of_model m))))
+  /\ forallb no_generator_tag (fresh_cpp (elements_of_model m)) = true
+  /\ wf_fresh_file (fresh_cpp (elements_of_model m)) = true.
+Proof. exact shipped_cpp_wf_out. Qed.
+Print Assumptions C07_wf_out_Test_TEMPLATEStateMachine_cpp.
+
+(* C01 for that file without a per-output boolean: regenerating over ANY user edits of its blocks is a fixed point *)
+Theorem C07_fixed_point_shipped : forall e path (u : string -> list string),
+  names_ok t_cpp e = true -> (forall k, block_ok (u k) = true) ->
+  regen_file path (fresh_cpp e) (on_disk u (items_of (fresh_cpp e))) = (on_disk u (items_of (fresh_cpp e)), []).
+Proof. exact fixed_point_cpp. Qed.
+Print Assumptions C07_fixed_point_shipped.
+
+Example C07_wf_out_nonvacuous :
+  shipped16 dict0 lines_cpp = Some (l0_cpp, t_cpp)
+  /\ match tt_model cd_rows [] ["MessageHeader"] [] with
+     | Some m => names_ok t_cpp (elements_of_model m) && negb (nodupb (pair_keys kof (items_of (fresh_cpp (elements_of_model m)))) && false)
+                 && Nat.ltb 20 (List.length (pair_keys kof (items_of (fresh_cpp (elements_of_model m)))))
+     | None => false
+     end = true.
+Proof. split; vm_compute; reflexivity. Qed.
+Print Assumptions C07_wf_out_nonvacuous.
